@@ -18,15 +18,18 @@ Orders == {<<"A","B","C">>, <<"A","C","B">>, <<"B","A","C">>, <<"B","C","A">>, <
 Fixed == AllVias
 PreFix == {"direct", "list", "hmap"}
 O1 == <<"A","B","C">>
-Thm(g) == /\ \A o \in Orders : AsBuilt(g, Fixed, o) = AsBuilt(g, Fixed, O1)
-          /\ ~Blind(g) => (AsBuilt(g, Fixed, O1) = [n \in DOMAIN g |-> IdealDerive(g, n)] /\ Compiles(g, AsBuilt(g, Fixed, O1)))
-RefutedBeforeFix == {g \in Graphs : ~Blind(g) /\ \E o \in Orders : ~Compiles(g, AsBuilt(g, PreFix, o))}
+Kinds == {"heo", "po"}
+Thm(g) == \A K \in Kinds :
+            /\ \A o \in Orders : AsBuilt(K, g, Fixed, o) = AsBuilt(K, g, Fixed, O1)
+            /\ (K = "heo" /\ Blind(g)) \/ (AsBuilt(K, g, Fixed, O1) = [n \in DOMAIN g |-> IdealDerive(K, g, n)] /\ Compiles(K, g, AsBuilt(K, g, Fixed, O1)))
+RefutedBeforeFix == {g \in Graphs : \E K \in Kinds : ~(K = "heo" /\ Blind(g)) /\ \E o \in Orders : ~Compiles(K, g, AsBuilt(K, g, PreFix, o))}
 
 OnCycle(g, x, m) == m.to \notin Leaves /\ x \in Reach(g, m.to)
-SigOf(g, d) == UNION {{<<d[x], g[x][i].via, IF g[x][i].to \in Leaves THEN g[x][i].to ELSE IF d[g[x][i].to] THEN "derives" ELSE "plain", OnCycle(g, x, g[x][i])>>
+SigOf(g, d, e) == UNION {{<<d[x], e[x], g[x][i].via, IF g[x][i].to \in Leaves THEN g[x][i].to ELSE IF d[g[x][i].to] THEN "derives" ELSE IF e[g[x][i].to] THEN "po-only" ELSE "plain", OnCycle(g, x, g[x][i])>>
                         : i \in DOMAIN g[x]} : x \in DOMAIN g}
-Row(g) == LET d == AsBuilt(g, Fixed, O1) IN
-          [g |-> g, ok |-> Compiles(g, d), blind |-> Blind(g), refuted_before_fix |-> g \in RefutedBeforeFix, sig |-> SetToSeq(SigOf(g, d))]
+Row(g) == LET d == AsBuilt("heo", g, Fixed, O1)
+              e == AsBuilt("po", g, Fixed, O1)
+          IN [g |-> g, ok |-> Compiles("heo", g, d) /\ Compiles("po", g, e), blind |-> Blind(g), refuted_before_fix |-> g \in RefutedBeforeFix, sig |-> SetToSeq(SigOf(g, d, e))]
 ASSUME \A g \in Graphs : Thm(g) \/ Assert(FALSE, <<"as-built derive decision differs from the ideal one", g>>)
 ASSUME Assert(RefutedBeforeFix # {}, "the model cannot tell the type graph before fix 0004637 from the one after it")
 ASSUME PrintT(<<"graphs", Cardinality(Graphs), "refuted before the fix", Cardinality(RefutedBeforeFix)>>)
